@@ -139,6 +139,9 @@ Step ==
            ELSE IF ev.ev = "addr" THEN
                /\ ps' = [ps EXCEPT !.fs.regs = Append(fs.regs, ev.reg)]
                /\ UNCHANGED verdict
+           ELSE IF ev.ev = "regs" THEN
+               /\ ps' = [ps EXCEPT !.fs.regs = ev.rl]
+               /\ UNCHANGED verdict
            ELSE IF ev.ev = "g" /\ ~(ps.active /\ ev.hascode) THEN
                \* no active print (or no G/M/T code): the command passes untouched, untracked
                LET d == IF ev.res # "unchanged" THEN "result.kind" ELSE PluginDiff(ps, ev)
